@@ -496,6 +496,70 @@ def _ghost_names(lines):
     names |= set(re.findall(r"(?:proof\s*\{|;)\s*([A-Za-z_][A-Za-z0-9_]*)\s*=[^=]", txt))
     return names
 
+def rw_R33(rf, a, b):
+    """`<place>.split('c').filter_map(<closure>).collect()` -> the definition of that adapter chain for a Vec, written out:
+    `{ let mut v = Vec::new(); let mut it = verif_split_char(<place>, 'c'); let mut f = <closure>; loop { match it.next() {
+    Some(x) => { if let Some(y) = f(x) { v.push(y); } } None => break } } v }`  (iterator adapters are outside this Verus;
+    the closure text itself is untouched)"""
+    toks, sg, out = rf.toks, _sig(rf.toks, a, b), []
+    for k, i in enumerate(sg):
+        t = toks[i]
+        if not (t.kind == "ident" and t.text == "filter_map" and k > 0 and toks[sg[k - 1]].text == "." and toks[sg[k + 1]].text == "("):
+            continue
+        close = L.match_close(toks, sg[k + 1])
+        after = [x for x in sg if x > close][:4]
+        if [toks[x].text for x in after] != [".", "collect", "(", ")"]:
+            continue
+        # receiver must be `<place>.split('<c>')`
+        if toks[sg[k - 2]].text != ")":
+            continue
+        j = k - 2
+        depth = 0
+        while j >= 0:
+            tx = toks[sg[j]].text
+            if tx == ")":
+                depth += 1
+            elif tx == "(":
+                depth -= 1
+                if depth == 0:
+                    break
+            j -= 1
+        if j < 2 or toks[sg[j - 1]].text != "split" or toks[sg[j - 2]].text != ".":
+            continue
+        args = [toks[x] for x in range(sg[j] + 1, sg[k - 2]) if toks[x].kind not in ("ws", "comment")]
+        if len(args) != 1 or args[0].kind != "char":
+            continue
+        r0 = _recv_chain(toks, sg, j - 2)
+        if r0 is None:
+            continue
+        recv = L.text(toks, sg[r0], sg[j - 2]).strip()
+        out.append((Edit(sg[r0], sg[k + 1] + 1, "{ let mut __fm_v = Vec::new(); let mut __fm_it = verif_split_char(%s, %s); let mut __fm_f = " % (recv, args[0].text), ("gen", "R33")),
+                    "R33 %s:%d `%s.split(%s).filter_map(..).collect()` written out as a loop over `.next()`" % (rf.rel, t.line, recv, args[0].text)))
+        out.append((Edit(close, after[3] + 1, "; loop { match __fm_it.next() { Some(__fm_x) => { if let Some(__fm_y) = __fm_f(__fm_x) { __fm_v.push(__fm_y); } } None => break } } __fm_v }", ("gen", "R33")), None))
+    return out
+
+
+def rw_R34(rf, a, b):
+    """`<expr>[<n>..]` where <expr> ends in a call to trim_start()/trim()/trim_end()/as_str() (a &str) -> verif_str_from(<expr>, <n>):
+    slicing a str panics unless n is a char boundary within the string; the wrapper's precondition says so"""
+    toks, sg, out = rf.toks, _sig(rf.toks, a, b), []
+    for k, i in enumerate(sg):
+        if toks[i].text != "[" or k < 3:
+            continue
+        if not (toks[sg[k - 1]].text == ")" and toks[sg[k - 2]].text == "(" and toks[sg[k - 3]].text in ("trim_start", "trim", "trim_end", "as_str")):
+            continue
+        close = L.match_close(toks, i)
+        inner = [toks[x] for x in range(i + 1, close) if toks[x].kind not in ("ws", "comment")]
+        if not (len(inner) == 3 and inner[0].kind == "num" and inner[1].text == "." and inner[2].text == "."):
+            continue
+        j = _recv_expr(toks, sg, k - 4) if toks[sg[k - 4]].text == "." else None
+        if j is None:
+            continue
+        recv = L.text(toks, sg[j], i).strip()
+        out.append((Edit(sg[j], close + 1, "verif_str_from(%s, %s)" % (recv, inner[0].text), ("gen", "R34")), "R34 %s:%d `%s[%s..]` -> verif_str_from" % (rf.rel, toks[i].line, recv, inner[0].text)))
+    return out
+
+
 def rw_R32(rf, a, b):
     """`<place>.fetch_add(n, ord)` / `.fetch_sub(n, ord)` -> verif_fetch_add(&<place>, n, ord) / verif_fetch_sub(..): same std call
     inside, with an effect witness as contract (vstd already declares a specification for these two, a second one is refused)"""
@@ -901,7 +965,7 @@ def rw_R5b(rf, a, b):
     return out
 
 
-REWRITES = {"R32": rw_R32, "R30": rw_R30, "R29": rw_R29, "R27": rw_R27, "R26": rw_R26, "R25": rw_R25, "R23": rw_R23, "R24": rw_R24, "R5b": rw_R5b, "R21": rw_R21, "R8": rw_R8, "R22": rw_R22, "R3b": rw_R3b, "R20": rw_R20, "R19": rw_R19, "R18": rw_R18, "R2b": rw_R2b, "R15": rw_R15, "R2": rw_R2, "R7": rw_R7, "R3": rw_R3, "R1": rw_R1, "R4": rw_R4, "R5": rw_R5, "R10": rw_R10, "R13": rw_R13, "R14": rw_R14}
+REWRITES = {"R33": rw_R33, "R34": rw_R34, "R32": rw_R32, "R30": rw_R30, "R29": rw_R29, "R27": rw_R27, "R26": rw_R26, "R25": rw_R25, "R23": rw_R23, "R24": rw_R24, "R5b": rw_R5b, "R21": rw_R21, "R8": rw_R8, "R22": rw_R22, "R3b": rw_R3b, "R20": rw_R20, "R19": rw_R19, "R18": rw_R18, "R2b": rw_R2b, "R15": rw_R15, "R2": rw_R2, "R7": rw_R7, "R3": rw_R3, "R1": rw_R1, "R4": rw_R4, "R5": rw_R5, "R10": rw_R10, "R13": rw_R13, "R14": rw_R14}
 
 
 # --------------------------------------------------------------------------------------------
